@@ -169,10 +169,10 @@ def stale_after_reconnect_traces(ctx, modes):
     """Something is parked in the packet store (a zero-id packet read while an OPEN waited for its OKAY; late packets of an operation
     that gave up) when the caller reconnects, with or without close(); the commands of the new connection return their own output only."""
     traces, specs = [], []
-    for k in range(12):
+    for k in range(18):
         for mode in modes:
             ops = [dict(api='shell', decode=False, cmd='a%d' % k, chunks=[b'<a>'.hex()], stray_zero=(b'<stale%d>' % k).hex(), read_timeout_s=1.0),
-                   dict(api='reconnect', close_first=(k % 3 == 2)),
+                   dict(api='reconnect', close_first=(k % 3 == 2), close_raises=(None, 'oserr', 'reset')[k // 3 % 3]),
                    dict(api=('shell', 'exec_out', 'streaming_shell')[k % 3], decode=False, cmd='b%d' % k, chunks=[b'<b1>'.hex(), b'<b2>'.hex()][:1 + k % 2]),
                    dict(api='shell', decode=False, cmd='c%d' % k, chunks=[b'<c>'.hex()])]
             if k % 2:
